@@ -2,8 +2,12 @@
    Parametric in the S-box function; the aes_key[] index lists and the `nr > T` threshold are the
    ones regenerated from crypto_aes_aesni.c. *)
 From Coq Require Import NArith List Arith Bool Lia.
-From LCP Require Import Gen.Repo_aes Crypto.AesSpec Crypto.AesProofs Accel.AesNi Crypto.AesCtrModel
-  Crypto.AesRepo.
+From LCP Require Import Gen.Repo_aes.
+From LCP Require Import Crypto.AesSpec.
+From LCP Require Import Crypto.AesProofs.
+From LCP Require Import Accel.AesNi.
+From LCP Require Import Crypto.AesCtrModel.
+From LCP Require Import Crypto.AesRepo.
 Import ListNotations.
 Local Open Scope N_scope.
 
